@@ -94,6 +94,8 @@ type OpM struct {
 	Type   string     `json:"type,omitempty"`
 	Labels []string   `json:"labels,omitempty"`
 	Keep   int        `json:"keep,omitempty"` // set_labels: keep this many of the current labels in front of Labels
+	Search []string   `json:"search,omitempty"` // rename_prefix: the names to look for (mode 0)
+	Mode   int        `json:"mode,omitempty"`   // rename_prefix: 1 = leading names of the target's traversal, 2 = its names with index steps skipped
 	Pre    []OpM      `json:"pre,omitempty"` // edits applied to a fresh block before it is appended
 	K      int        `json:"k,omitempty"`   // bytes a failing writer accepts
 	Chunk  int        `json:"chunk,omitempty"`
